@@ -435,7 +435,7 @@ import time
 from lib import vlib
 
 PROP = ["Properties/C13.v"]
-LIM = 1 << 20          # model: one make() of at most 1 MiB certainly succeeds
+LIM = 1 << 26          # model: memory one allocation can get (>= 48 * stream length + 66048 for every stream used here)
 SURE_FATAL = 1 << 36   # a make() above 64 GiB certainly kills the process (ulimit -v 4 GiB in the runner)
 TRUSTED = [
     "Coq 8.16.1 kernel (coqc); vm_compute only in Example/refuted witnesses",
@@ -447,8 +447,9 @@ TRUSTED = [
     "Go's makeslice (panic above 2^48 bytes or negative, fatal out-of-memory above what the process can get: the model takes that amount as the parameter lim), "
     "the compiler that produced the code (the model starts from the exported *Code), the VM that runs it (behaviour is compared Go-vs-Go: f against load(string.dump(f)))",
 ]
-THEOREMS_IM = ["C13_unmarshal_marshal", "C13_marshal_injective", "C13_refactor_preserves_lookup", "C13_refactor_idempotent",
-               "C13_dump_load_dump_stable", "C13_compiled_dump_is_fixed_point"]
+THEOREMS_IM = ["C13_unmarshal_marshal", "C13_marshal_injective", "C13_unmarshal_total_no_panic", "C13_load_no_panic",
+               "C13_refactor_preserves_lookup", "C13_refactor_idempotent", "C13_refactor_wf",
+               "C13_dump_load_dump_stable", "C13_compiled_dump_is_fixed_point", "C13_marshal_charge"]
 
 
 def hx(b):
@@ -699,7 +700,8 @@ def mutations(rng, d, offs, nrand):
     return out
 
 
-LOAD_MSG = {"eof": b"EOF", "ueof": b"unexpected EOF", "type": b"Invalid value type", "prefix": b"Invalid marshal prefix"}
+LOAD_MSG = {"eof": b"EOF", "ueof": b"unexpected EOF", "type": b"Invalid value type", "prefix": b"Invalid marshal prefix",
+            "len": b"Invalid length", "code": b"Invalid code"}
 
 
 def predict_load(data, model_line):
@@ -917,6 +919,15 @@ def run(tier, seed):
             if m not in seen and len(m) < 20000:
                 seen.add(m)
                 muts.append((kind, m))
+    # corpus: minimised past failures (one hex stream per line), run first forever
+    cs = vlib.os.path.join(vlib.VERIF, "corpus", "C13", "streams.txt")
+    if vlib.os.path.exists(cs):
+        pre = []
+        for l in open(cs):
+            l = l.split("#")[0].strip()
+            if l:
+                pre.append(("corpus", bytes.fromhex(l)))
+        muts = pre + muts
     # exhaustive truncation + every single-bit flip of the smallest dump
     if dumps:
         d0 = dumps[0][0]
@@ -1048,38 +1059,26 @@ def run(tier, seed):
             if want is not None and got != want:
                 im_diffs.append(("load() result differs from what the model predicts (%s)" % kind, None, None, m.hex()[:300] + " -> go: " + got + " want: " + want))
             ck.count("malformed:load:" + ("function" if got.startswith("s" + b"function".hex()) else "nil+message"))
-    # witness of the recorded finding, replayed through load()
+    # the witnesses of the two repaired defects, through load(), outside and inside a limited context
     wit = bytes([6, 0, 4, 5]) + bytes(16) + struct.pack("<q", 1 << 40)
-    wsrc = 'local f, e = load(%s, "w", "b"); emit(type(f), e)' % lua_str(wit)
-    wl = ["w0 %s" % wsrc.encode().hex(), "w1 %s cpu=100000 mem=100000" % wsrc.encode().hex()]
-    wout = vlib.run_lines_resilient(gvh, ["lua"], wl, per_case_timeout=60)
-    for n, o in enumerate(wout):
-        f = o.split(" ")
-        if f[1] == "CRASH" and b"out of memory" in bytes.fromhex(f[3] if f[3] != "-" else ""):
-            if known_make:
-                ck.known_finding(known_make)
-            else:
-                s_fail += 1
-                ck.violation("load of a 28-byte binary chunk kills the process (out of memory) %s" % ("inside a context with cpu/mem limits" if n else ""),
-                             {"kind": "Go!=S", "engine": "lua", "lua": wsrc, "impl": o[:900], "theorem": "C13_unmarshal_total_no_panic_refuted"})
-        elif f[1] == "ok":
-            im_diffs.append(("the recorded witness of C13-unmarshal-make-before-budget no longer crashes; the model (UFatal) is stale", None, None, o[:300]))
-        else:
-            s_fail += 1
-            ck.violation("witness stream: unexpected outcome " + f[1], {"kind": "Go!=S", "engine": "lua", "lua": wsrc, "impl": o[:900]})
-
     wit2 = bytes([6, 0, 4, 5]) + bytes(40) + bytes([0xFF, 0xFF, 0, 0, 0, 0]) + bytes(8)
-    w2src = 'local f, e = load(%s, "w", "b"); emit(type(f), e)' % lua_str(wit2)
-    for o in vlib.run_lines_resilient(gvh, ["lua"], ["w2 %s" % w2src.encode().hex()], per_case_timeout=60):
+    wl = []
+    for n, w in enumerate((wit, wit2)):
+        wsrc = 'local f, e = load(%s, "w", "b"); emit(type(f), e)' % lua_str(w)
+        wl += ["w%d %s" % (n, wsrc.encode().hex()), "v%d %s cpu=100000 mem=100000" % (n, wsrc.encode().hex())]
+    for o in vlib.run_lines_resilient(gvh, ["lua"], wl, per_case_timeout=60):
         f = o.split(" ")
-        if f[1] == "gopanic" and known_upv:
-            ck.known_finding(known_upv)
-        elif f[1] in ("gopanic", "CRASH", "HANG"):
+        ck.case("witness:" + f[0], True)
+        if f[1] not in ("ok", "killed"):
             s_fail += 1
-            ck.violation("load of a 58-byte binary chunk with upvalue count -1: Go panic makeslice (kills an embedding that does not recover)",
-                         {"kind": "Go!=S", "engine": "lua", "lua": w2src, "impl": o[:900], "theorem": "C13_load_no_panic_refuted"})
-        else:
-            im_diffs.append(("the recorded witness of C13-load-negative-upvalue-count no longer panics; the model (LPanic) is stale", None, None, o[:300]))
+            k = known_make if f[0][1] == "0" else known_upv
+            if k and f[1] in ("CRASH", "gopanic"):
+                ck.known_finding(k)
+                s_fail -= 1
+            else:
+                ck.violation("load of a corrupt binary chunk (corpus witness %s) takes the host down: %s" % (f[0], f[1]),
+                             {"kind": "Go!=S", "engine": "lua", "lua": bytes.fromhex(wl[0].split(" ")[1]).decode("latin-1") if f[0][1] == "0" else bytes.fromhex(wl[2].split(" ")[1]).decode("latin-1"),
+                              "impl": o[:900], "theorem": "C13_unmarshal_total_no_panic / C13_load_no_panic"})
 
     # ------------------------------------------------ classification of Go != IM
     if im_diffs and s_fail == 0:
@@ -1102,7 +1101,7 @@ def run(tier, seed):
              "and all bit flips of the smallest dump) through UnmarshalConst (budgets 0/small/exact/large) vs the model and through load(s,name,'b'), each in a child process; "
              "non-trivial = every closure / stream counts, behaviour cases only if events were emitted; distinct by dump bytes / stream bytes / chunk text" % (nchunks, ncorpus, 6 if quick else len(ARG_TUPLES)),
         trusted_base=TRUSTED,
-        assumptions=["allocation outcomes are compared only outside the gray zone: a make() up to 1 MiB succeeds, above 64 GiB it kills the process (runner: ulimit -v 4 GiB); in between either is accepted",
+        assumptions=["the model is run with lim = 64 MiB per allocation; C13_unmarshal_total_no_panic says no stream used here (< 20 kB) can need more, so every model verdict is an ordinary one and a Go crash is a violation",
                      "behaviour (stage B) is Go against Go: it shows f and load(string.dump(f)) agree, not that either is what the manual says (that is C01)",
                      "strip argument of string.dump is ignored by golua (TODO in the source) and not checked"])
 
